@@ -93,6 +93,8 @@ def build_trace(spec):
             return CallTrace(_func("m", "bad_arg"), {"a": 3}, int)          # 3 has no __qualname__
         if kind == "ret":
             return CallTrace(_func("m", "bad_ret"), {"a": int}, "not a type")
+        if kind == "yield":      # unserialisable only through its yield type
+            return CallTrace(_func("m", "bad_yield"), {"a": int}, int, 3.5)
         if kind == "func":
             return CallTrace(object(), {"a": int}, int)                       # no __qualname__ on the callable
         # unserialisable AND unhashable (hash(trace) raises TypeError): a list / dict / set where a type belongs
@@ -111,6 +113,10 @@ def build_trace(spec):
 def expected_row(spec):
     """the row the trace serialises to, or None when serialize_traces skips it (same try/except as the code)"""
     from monkeytype.encoding import CallTraceRow
+    if spec[0] == "bad":
+        # unserialisable by construction (a non-type where a type belongs): whatever the tree's encoder makes of it,
+        # the reference has no row for it - a store that commits something for such a trace stores what was not added
+        return None
     try:
         r = CallTraceRow.from_trace(build_trace(spec))
     except Exception:
@@ -246,6 +252,29 @@ class clock_on_day:
         return False
 
 
+def read_config(conn):
+    """the settings the atomicity / durability argument rests on, read through the store's own connection"""
+    try:
+        return {"k": "config",
+                "journal_mode": str(conn.execute("PRAGMA journal_mode").fetchone()[0]).lower(),
+                "synchronous": str(conn.execute("PRAGMA synchronous").fetchone()[0]),
+                "locking_mode": str(conn.execute("PRAGMA locking_mode").fetchone()[0]).lower(),
+                "isolation_level": "None" if conn.isolation_level is None else str(conn.isolation_level),
+                "autocommit": str(getattr(conn, "autocommit", -1))}
+    except Exception as e:
+        return {"k": "config", "journal_mode": f"?{type(e).__name__}", "synchronous": "?", "locking_mode": "?",
+                "isolation_level": "?", "autocommit": "?"}
+
+
+CONFIG_KEYS = ("journal_mode", "synchronous", "locking_mode", "isolation_level", "autocommit")
+
+
+def config_ok(obs):
+    return (obs["journal_mode"] in ("delete", "truncate", "persist", "wal") and obs["synchronous"] in ("1", "2", "3")
+            and obs["locking_mode"] == "normal" and obs["isolation_level"] in ("", "DEFERRED", "IMMEDIATE", "EXCLUSIVE")
+            and obs["autocommit"] in ("-1", "False"))
+
+
 class Rig:
     """conn 0 is SQLiteStore.make_store(path) literally; the others are the same construction with a short busy
     timeout so that an injected lock conflict does not wait 5 s."""
@@ -351,6 +380,8 @@ class Rig:
         if kind == "table":
             rows, ok = read_table_or_fail(self.path, table=op[1] if len(op) > 1 else TABLE)
             return {"k": "table", "table": rows, "ok": ok}
+        if kind == "config":
+            return read_config(self.stores[op[1]].conn)
         raise ValueError(op)
 
 
@@ -484,19 +515,56 @@ class Interner:
             fm = m if isinstance(m, str) else "?non-text:" + repr(m)
             fq = q if isinstance(q, str) else "?non-text:" + repr(q)
             fa = a if isinstance(a, str) else "?non-text:" + repr(a)
-            self.defs.append(f"Definition {name} : row := mkRow {_s(fm)} {_s(fq)} {_s(fa)} {_opt(r)} {_opt(y)}.")
+            # the JSON texts repeat across rows: one definition per distinct string keeps the file small
+            ro = "None" if r is None else f"(Some {self._str(r)})" if isinstance(r, str) else _opt(r)
+            yo = "None" if y is None else f"(Some {self._str(y)})" if isinstance(y, str) else _opt(y)
+            self.defs.append(f"Definition {name} : row := mkRow {_s(fm)} {_s(fq)} {self._str(fa)} {ro} {yo}.")
             self.rows[t] = name
         return self.rows[t]
 
+    def _str(self, x):
+        if not hasattr(self, "strs"):
+            self.strs = {}
+        if x not in self.strs:
+            name = f"s{len(self.strs)}"
+            self.defs.append(f"Definition {name} : string := {_s(x)}.")
+            self.strs[x] = name
+        return self.strs[x]
+
+    @staticmethod
+    def _periodic(seq):
+        """(block, k) when seq is k >= 3 repetitions of a block of >= 20 elements (row-major campaign batches)"""
+        n = len(seq)
+        if n < 60:
+            return None
+        try:
+            p = seq.index(seq[0], 1)
+        except ValueError:
+            return None
+        if p < 20 or n % p or n // p < 3 or seq != seq[:p] * (n // p):
+            return None
+        return seq[:p], n // p
+
     def rows_term(self, rows):
-        return common.coq_list(self.row(r) for r in rows)
+        with self.lock:
+            rows = [tuple(r) for r in rows]
+            per = self._periodic(rows)
+            if per:
+                blk = common.coq_list(self._row(r) for r in per[0])
+                return f"(List.concat (List.repeat {blk} {per[1]}))"
+            return common.coq_list(self._row(r) for r in rows)
 
     def _batch(self, rows):
         """rows: [tuple | None]"""
         key = tuple(rows)
         if key not in self.batches:
             name = f"b{len(self.batches)}"
-            body = common.coq_list("None" if r is None else f"Some {self.row(r)}" for r in rows)
+            per = self._periodic(list(rows))
+            if per:
+                blk = common.coq_list("None" if r is None else f"Some {self.row(r)}" for r in per[0])
+                body = f"List.concat (List.repeat {blk} {per[1]})"
+            else:
+                body = common.coq_list("None" if r is None else f"Some {self.row(r)}" for r in rows)
             self.defs.append(f"Definition {name} : batch := {body}.")
             self.batches[key] = name
         return self.batches[key]
@@ -555,6 +623,8 @@ def step_term(it: Interner, op, obs):
         return "COp ListModules ORaised"
     if kind == "table":
         return f"CTable {it.rows_term(obs['table'])} {common.coq_bool(obs['ok'])}"
+    if kind == "config":
+        return "CConfig " + " ".join(_s(obs[k]) for k in CONFIG_KEYS)
     raise ValueError(op)
 
 
@@ -642,6 +712,30 @@ def kill_batches(wide, n_rows):
         if i % 5 == 2 and i < 40:
             b.append(["bad", "arg"])
     return a, b
+
+
+SPILL_MODULES = ["spill_m%03d" % k for k in range(200)]
+
+
+def spill_batches(n_small=100, n_big=300):
+    """(A, B) for the spill kill: row-major over 200 modules, so that consecutive rows go to different leaves of the
+    module index; A is committed first, B (several MB: more than the page cache) is the batch the writer dies in.
+    Rows of one module are identical (400 distinct rows in all), which keeps the Gallina terms small."""
+    a = [["t", m, "small", 0, "A0"] for _ in range(n_small) for m in SPILL_MODULES]
+    b = [["t", m, "big", 0, "B0"] for _ in range(n_big) for m in SPILL_MODULES]      # 60000 rows: about 8 MB with the index
+    return a, b
+
+
+def many_modules_batch(n=2100):
+    """more distinct modules than any plausible listing limit"""
+    # names that differ in their first characters (the Coq side compares strings from the front, quadratically often)
+    return [["t", chr(97 + i % 26) + chr(97 + (i // 26) % 26) + "_gen%d" % i, "f", 0, None] for i in range(n)]
+
+
+def row_cap_batch(n_blocks=501):
+    """100 distinct rows repeated: more raw rows than any plausible retention cap once added twice"""
+    block = [["t", MODULES[i % 2], QUALNAMES[i % 7], [0, 1, 6, 7][i % 4], "R%d" % (i % 25)] for i in range(100)]
+    return block * n_blocks
 
 
 def batch_of_row(row):
